@@ -28,6 +28,7 @@ type Publish struct {
 
 type session struct {
 	id     string
+	wireID string // the client identifier as sent in CONNECT (may be empty)
 	conn   net.Conn
 	wmu    sync.Mutex
 	subs   map[string]bool
@@ -63,6 +64,14 @@ type Broker struct {
 	queue     []forward
 	delay     func(p Publish) time.Duration
 	delivered int
+	takeovers int
+}
+
+// Takeovers returns how many sessions were closed because a CONNECT arrived with their client identifier.
+func (b *Broker) Takeovers() int {
+	b.mu.Lock()
+	defer b.mu.Unlock()
+	return b.takeovers
 }
 
 // Start launches a broker on 127.0.0.1:0.
@@ -403,12 +412,28 @@ func (b *Broker) onConnect(s *session, body []byte) error {
 			return err
 		}
 	}
+	wireID := clientID
 	if clientID == "" {
 		clientID = user
 	}
 	b.mu.Lock()
 	s.id = clientID
+	s.wireID = wireID
+	// MQTT 3.1.1 [MQTT-3.1.4-2]: if the client identifier names a client that is already connected, the
+	// server must disconnect the existing client. (An empty identifier is replaced by a unique one.)
+	var old []*session
+	if wireID != "" {
+		for o := range b.sessions {
+			if o != s && o.wireID == wireID {
+				old = append(old, o)
+			}
+		}
+		b.takeovers += len(old)
+	}
 	b.mu.Unlock()
+	for _, o := range old {
+		_ = o.conn.Close()
+	}
 	return s.write([]byte{0x20, 0x02, 0x00, 0x00})
 }
 
